@@ -467,12 +467,6 @@ func (t *Tokenizer) Tokenize(input []byte) ([]models.TokenWithSpan, error) {
 				break
 			}
 
-			// Check token count limit to prevent DoS attacks
-			if len(tokens) >= MaxTokens {
-				tokenErr = errors.TokenLimitReachedError(len(tokens)+1, MaxTokens, t.getCurrentPosition(), string(t.input))
-				return
-			}
-
 			startPos := t.pos
 
 			token, err := t.nextToken()
@@ -484,6 +478,14 @@ func (t *Tokenizer) Tokenize(input []byte) ([]models.TokenWithSpan, error) {
 			if token.Type == models.TokenTypeWhitespace {
 				// a comment was consumed (and recorded in t.Comments)
 				continue
+			}
+
+			// Check token count limit to prevent DoS attacks. Only a real
+			// token counts: blanks or a comment after the last permitted
+			// token do not make the input exceed the limit.
+			if len(tokens) >= MaxTokens {
+				tokenErr = errors.TokenLimitReachedError(len(tokens)+1, MaxTokens, t.toSQLPosition(startPos), string(t.input))
+				return
 			}
 
 			tw := models.TokenWithSpan{
@@ -612,12 +614,6 @@ func (t *Tokenizer) TokenizeContext(ctx context.Context, input []byte) ([]models
 				break
 			}
 
-			// Check token count limit to prevent DoS attacks
-			if len(tokens) >= MaxTokens {
-				tokenErr = errors.TokenLimitReachedError(len(tokens)+1, MaxTokens, t.getCurrentPosition(), string(t.input))
-				return
-			}
-
 			startPos := t.pos
 
 			token, err := t.nextToken()
@@ -629,6 +625,14 @@ func (t *Tokenizer) TokenizeContext(ctx context.Context, input []byte) ([]models
 			if token.Type == models.TokenTypeWhitespace {
 				// a comment was consumed (and recorded in t.Comments)
 				continue
+			}
+
+			// Check token count limit to prevent DoS attacks. Only a real
+			// token counts: blanks or a comment after the last permitted
+			// token do not make the input exceed the limit.
+			if len(tokens) >= MaxTokens {
+				tokenErr = errors.TokenLimitReachedError(len(tokens)+1, MaxTokens, t.toSQLPosition(startPos), string(t.input))
+				return
 			}
 
 			tw := models.TokenWithSpan{
